@@ -213,7 +213,7 @@ def part_formulas(ctx):
     from mitxgraders.helpers.calc.mathfuncs import DEFAULT_FUNCTIONS
     rng = ctx.rng
     asks, meta = [], []
-    lits = ['norm(v)', 'det(A)', 'trace(A)', 'sin(1)', 'abs(v)', 'norm([3,4])', '[1,2]', '[3,-1]', '[1,2,3]', '[[1,2],[3,4]]', '[[2,0],[0,4]]', '[[1,2],[2,4]]', '[[1,2,3],[4,5,6]]', '[[1],[2]]', '2', '0', 'A', 'v', '[i,1]', '[[1,i],[0,1]]', 'c', 'k', 'z', 'c', 'k', 'c32', 'k32', 'z64', 'k16']
+    lits = ['norm(v)', 'det(A)', 'trace(A)', 'sin(1)', 'abs(v)', 'norm([3,4])', '[1,2]', '[3,-1]', '[1,2,3]', '[[1,2],[3,4]]', '[[2,0],[0,4]]', '[[1,2],[2,4]]', '[[1,2,3],[4,5,6]]', '[[1],[2]]', '2', '0', 'A', 'v', '[i,1]', '[[1,i],[0,1]]', 'c', 'k', 'z', 'c', 'k', 'c32', 'k32', 'z64', 'k16', '[5]', '[2]', '[5]', '[1,2]', '[3,-1]']
     import numpy as np
     # c, k, z: numpy scalar values (an author's np.sqrt(2), an entry of an ndarray, a DiscreteSet of numpy numbers): same rules as builtin numbers
     variables = {'A': MathArray([[1.0, 1.0], [0.0, 1.0]]), 'v': MathArray([2.0, -1.0]), 'i': 1j,
@@ -263,6 +263,13 @@ def part_formulas(ctx):
                     ctx.disagree('outcome class differs from the model', case, got, o)
             elif got[0] != 'out' or not av_close(o['out'], got[1]):
                 ctx.disagree('value/shape differs from the model', case, got, o)
+    # three or more vectors chained by * are refused also when one of them has a single entry (it is a vector, not a number)
+    for expr in ['[1,2]*[3,4]*[5]', '[5]*[1,2]*[3,4]', '[1,2]*[5]*[3,4]', '[2]*[5]*[3]', 'v*v*[2]', '[2]*v*v', 'v*[3]*v*[1,2]']:
+        k, v_ = D.run_impl(lambda: evaluator(expr, variables, FUN, {}, max_array_dim=2)[0])
+        case = {'part': 'triple-single-entry', 'expr': expr}
+        ctx.case(case, nontrivial_key=('triple1', expr), kind='product:triple-single-entry')
+        if not (k == 'err' and v_[0] is True):
+            ctx.violation('a chained product of three vectors (one with a single entry) returned a value', case, impl=repr(v_)[:120])
     # MatrixGrader with negative powers disabled
     g = MatrixGrader(answers='[[1,1],[0,1]]', variables=['A'], sample_from={'A': D.scripted_class()(values=[MathArray([[1.0, 1.0], [0.0, 1.0]])])}, max_array_dim=2, negative_powers=False, samples=1)
     for stu, want in [('A', 'ok'), ('A^1', 'ok'), ('A^2 * A^-1', 'MathArrayError'), ('A^-1', 'MathArrayError'), ('A^(0-1)', 'MathArrayError'), ('A^0 * A', 'ok'), ('[[1,1],[0,1]]^-2', 'MathArrayError'), ('A^0.5', 'MathArrayError')]:
